@@ -204,11 +204,7 @@ def run(ctx):
     if ok:
         # hashed = data.encode(); data = name + "".join(f"{n}{t}" for t, n in fields)
         src = hashed.func.value if isinstance(hashed, ast.Call) and isinstance(hashed.func, ast.Attribute) and hashed.func.attr == "encode" else hashed
-        if isinstance(src, ast.Name):
-            for st in walk_no_nested(ch):
-                if isinstance(st, ast.Assign) and norm(st.targets[0]) == src.id:
-                    src = st.value
-        order = _hash_input_order(src, p_name, p_fields)
+        order = _hash_input_order(_accumulated_text(ch, src), p_name, p_fields, ch)
         ctx.check(order == ["name", "field.name", "field.type"], "R2.2", "calc_descriptor_hash:input-order",
                   f"the hashed text is composed as {order}; the format hashes the descriptor name, then for each field its name followed by its type", ch,
                   "name, then per field: name + type", key="R2.2:calc_descriptor_hash:input-order")
@@ -318,7 +314,58 @@ def _fold(prog, module, e):
         raise AnalysisError(f"constant {norm(e)} does not fold ({ex})")
 
 
-def _hash_input_order(src, p_name, p_fields):
+def _accumulated_text(fn, src):
+    """The expression a text variable holds: its initial assignment, followed by `v += x` in loops (kept as AugAssign markers)."""
+    if not isinstance(src, ast.Name):
+        return src
+    name = src.id
+    parts = []
+    for st in ast.walk(fn):
+        if isinstance(st, ast.Assign) and len(st.targets) == 1 and norm(st.targets[0]) == name:
+            parts.append(("init", st.value, st))
+        elif isinstance(st, ast.AugAssign) and norm(st.target) == name and isinstance(st.op, ast.Add):
+            parts.append(("aug", st.value, st))
+    parts.sort(key=lambda p: p[2].lineno)
+    if len(parts) == 1 and parts[0][0] == "init":
+        return parts[0][1]
+    return parts
+
+
+def _hash_input_order(src, p_name, p_fields, fn=None):
+    if isinstance(src, list):
+        # accumulation form:  data = name ; for t, n in fields: data += n + t
+        out = []
+        for kind, val, st in src:
+            if kind == "init":
+                out += _hash_input_order(val, p_name, p_fields)
+            else:
+                loop = getattr(st, "_parent", None)
+                while loop is not None and not isinstance(loop, ast.For):
+                    loop = getattr(loop, "_parent", None)
+                if loop is not None and dotted(loop.iter) == p_fields and isinstance(loop.target, ast.Tuple) and len(loop.target.elts) == 2:
+                    t_var, n_var = [norm(x) for x in loop.target.elts]
+                    seq = []
+
+                    def fl(e):
+                        if isinstance(e, ast.BinOp) and isinstance(e.op, ast.Add):
+                            fl(e.left)
+                            fl(e.right)
+                        elif isinstance(e, ast.JoinedStr):
+                            for v in e.values:
+                                if isinstance(v, ast.FormattedValue):
+                                    seq.append(norm(v.value))
+                                elif isinstance(v, ast.Constant) and v.value:
+                                    seq.append(f"literal:{v.value!r}")
+                        elif isinstance(e, ast.Constant) and isinstance(e.value, str):
+                            if e.value:
+                                seq.append(f"literal:{e.value!r}")
+                        else:
+                            seq.append(norm(e))
+                    fl(val)
+                    out += ["field.name" if x == n_var else "field.type" if x == t_var else x for x in seq]
+                else:
+                    out.append(norm(val))
+        return out
     """Order of the parts of the hashed text: ['name', 'field.name', 'field.type'] for  name + ''.join(f'{n}{t}' for t, n in fields)."""
     parts = []
 
